@@ -200,19 +200,13 @@ def rule_list(ctx):
     ctx.rule("C09.LIST", "recursive lister: skip '.'/'..' first; enqueue exactly the returned entry, only for type dir; finish a stream before the next; listings joined to their own path")
     lst_fn = p.method("Client", "list")
     lst = p.nested(lst_fn, "__anext__")
-    skip_ok = False
-    for n in walk_no_nested(lst):
-        if isinstance(n, ast.If) and isinstance(n.test, ast.Compare) and isinstance(n.test.ops[0], ast.In) and any(isinstance(s, ast.Continue) for s in n.body):
-            try:
-                vals = set(ast.literal_eval(n.test.comparators[0]))
-            except Exception:
-                vals = set()
-            l = n.test.left
-            whole = isinstance(l, ast.Call) and isinstance(l.func, ast.Name) and l.func.id == "str" and len(l.args) == 1 and isinstance(l.args[0], ast.Name)
-            if {".", ".."} <= vals and whole:
-                skip_ok = True
-    ctx.ob("C09.LIST", lst, "entries whose whole parsed name is '.' or '..' are skipped before anything else", skip_ok,
-           "recursive lister does not skip '.' and '..' entries by their whole name before enqueueing them (a '.' entry re-queues the directory forever)",
+    from .c19 import lister_dot_table
+    table = lister_dot_table(p, lst)
+    if table is None:
+        raise Inconclusive("C09.LIST: the lister's read loop was not found")
+    skip_ok = all(not (table[t] & {"return", "enqueue"}) for t in (".", "..")) and all("skip" not in table[t] and "return" in table[t] for t in ("x", ".x"))
+    ctx.ob("C09.LIST", lst, f"'.'/'..' are skipped before anything else and ordinary names ('x', '.x') never are ({ {k: sorted(v) for k, v in table.items()} })", skip_ok,
+           "recursive lister does not skip exactly the '.' and '..' entries (a '.' entry re-queues the directory forever; a skipped ordinary entry is lost from listings, downloads and removes)",
            construct="list:no dot skip")
     enq = [c for c in walk_no_nested(lst) if isinstance(c, ast.Call) and is_method_call(c, "append", "directories")]
     rets = [r for r in walk_no_nested(lst) if isinstance(r, ast.Return)]
